@@ -428,6 +428,27 @@ func (c *Ctx) ruleImportScope() {
 						inIter = true
 					}
 				}
+				// ... or in a helper of theirs: a function of the same package that only the iterators call
+				if !inIter && top == fn {
+					callers := P.Callers(fn)
+					all := len(callers) > 0
+					for _, cs := range callers {
+						ct := cs.Parent()
+						for ct != nil && ct.Parent() != nil {
+							ct = ct.Parent()
+						}
+						isIt := false
+						for _, n := range c.pkgIterators() {
+							if ct != nil && baseName(ct) == n && ct.Pkg == fn.Pkg {
+								isIt = true
+							}
+						}
+						if !isIt {
+							all = false
+						}
+					}
+					inIter = all
+				}
 				c.check(inIter, "IMPORT-SCOPE", FuncName(fn), P.Pos(ci.Pos()), "facts are imported in the package iterator only", "pass.ImportPackageFact is called outside the package iterator of package indexing: a second, differently scoped channel for annotations")
 			case "ExportObjectFact", "ImportObjectFact", "AllPackageFacts", "AllObjectFacts":
 				c.fail("IMPORT-SCOPE", FuncName(fn), P.Pos(ci.Pos()), "pass."+f+" is used: annotations of packages other than direct imports (or per-object channels) can influence diagnostics")
